@@ -14,3 +14,54 @@ package storage
 //@ func (Engine).GetSQLDatabase
 //@   trusted
 //@   benign
+
+// ---- C05: burning a session entry ----
+
+// a function of the prefix list and the key (ASSUMED: the prefixes of a store are never modified)
+//@ func (SessionDatabase).getFullKey
+//@   trusted
+//@   pure
+//@ func (*cache.Cache[T]).Get
+//@   trusted
+//@   benign
+//@ func (*cache.Cache[T]).Delete
+//@   trusted
+//@   benign
+//@ func (*cache.Cache[T]).Set
+//@   trusted
+//@   benign
+
+// Found only if the backing cache returned a non-empty value for exactly this store's key.
+//@ func (SessionStoreImpl[T]).Get
+//@   prop C05
+//@   ensures [found-only-if-stored] isNilIface(result) ==> isNilIface(ret(call (*cache.Cache[T]).Get #1).1) && len(ret(call (*cache.Cache[T]).Get #1).0) > 0
+//@        && arg(call (*cache.Cache[T]).Get #1, 2) == any(old(s.db.getFullKey(s.prefixes, key))) && arg(call (*cache.Cache[T]).Get #1, 0) == s.underlying
+
+// Success means: the entry was read and then deleted under the same key. The read and the delete are
+// two separate cache operations; nothing excludes a second taker between them (clause take-is-exclusive,
+// which fails on the pinned tree: known finding, see /verif/known-findings.txt and DESIGN.md).
+//@ func (SessionStoreImpl[T]).GetAndDelete
+//@   prop C05
+//@   ensures [read-then-deleted-on-success] isNilIface(result) ==> isNilIface(ret(call (SessionStoreImpl[T]).Get #1)) && arg(call (SessionStoreImpl[T]).Get #1, 1) == key
+//@        && arg(call (SessionStoreImpl[T]).Get #1, 2) == target && same(arg(call (SessionStoreImpl[T]).Get #1, 0), s)
+//@        && did(call (*cache.Cache[T]).Delete #1) && isNilIface(ret(call (*cache.Cache[T]).Delete #1))
+//@        && arg(call (*cache.Cache[T]).Delete #1, 2) == any(s.db.getFullKey(s.prefixes, key)) && arg(call (*cache.Cache[T]).Delete #1, 0) == s.underlying
+//@   ensures [nothing-deleted-when-not-found] !isNilIface(ret(call (SessionStoreImpl[T]).Get #1)) ==> !did(call (*cache.Cache[T]).Delete #1) && !isNilIface(result)
+//@   ensures [take-is-exclusive] isNilIface(result) ==> did(call (*sync.Mutex).Lock #1) || did(call (sync.Locker).Lock #1)
+
+//@ func (SessionStoreImpl[T]).defaultOptions
+//@   prop C05
+//@   modifies nothing
+//@ func store.WithExpiration
+//@   trusted
+//@   benign
+// a SessionOption only writes the options it is handed (interface.go: WithTTL)
+//@ func opt
+//@   trusted
+//@   modifies args
+
+// Put with a non-positive lifetime stores nothing (and reports success): a one-time value stored that way could never be burned.
+//@ func (SessionStoreImpl[T]).Put
+//@   prop C05
+//@   loop 1 invariant true
+//@   ensures [stored-under-this-stores-key] did(call (*cache.Cache[T]).Set #1) ==> arg(call (*cache.Cache[T]).Set #1, 2) == any(old(s.db.getFullKey(s.prefixes, key))) && arg(call (*cache.Cache[T]).Set #1, 0) == s.underlying
